@@ -172,13 +172,15 @@ def finding_open(ck, fid):
     """is the finding open? central known_findings.json decides; an id it does not know yet (fragment not merged by
     tools/merge.py so far) is looked up in the read-only fragment props/C08/findings.json"""
     global _FRAG
-    if any(x["id"] == fid for x in ck.findings):
-        return ck.match_finding(fid) is not None
     if _FRAG is None:
         try:
             _FRAG = {x["id"]: x for x in json.load(open(os.path.join(HERE, "findings.json")))["findings"]}
         except (OSError, ValueError):
             _FRAG = {}
+    if any(x["id"] == fid for x in ck.findings):
+        # the stricter of the two records: a finding the fragment already lists as fixed (repair committed to /repo, central
+        # file not re-merged yet) is not open any more
+        return ck.match_finding(fid) is not None and _FRAG.get(fid, {}).get("status", "open") == "open"
     return _FRAG.get(fid, {}).get("status") == "open"
 
 
@@ -341,7 +343,11 @@ def explain(case, f):
     if iv and fill == "null" and not q.get("group") and ft.get("count_null_in_row") and not ft["empty_bucket"]:
         ids.append("C08-fill-null-count-fastpath")
     if (q.get("star") and q.get("limit", 0) > 0 and ft.get("nseries", 0) > q.get("limit", 0) + q.get("offset", 0)
-            and ((not desc and q.get("has_tmin")) or (desc and q.get("has_tmax")))):
+            and ((not desc and q.get("has_tmin") and ft.get("point_before_tmin"))
+                 or (desc and q.get("has_tmax") and ft.get("point_after_tmax")))):
+        # sharpened by Prune.v (C08_limit_prune_current_sound_exact_keys): today's pruning is right when every series' key is
+        # the time of its first returned row, i.e. unless some series holds a stored point outside the range on the side the
+        # scan starts from
         ids.append("C08-limit-prune-time-range")
     if ft.get("unknown_bool_eq_false"):
         ids.append("C08-unknown-bool-field-eq-false")
@@ -676,7 +682,7 @@ def main(ck):
                               "Go harness cmd/c08 (generator, reference evaluator ref.go, canonicaliser), python driver props/C08/run.py",
                               "ts-server HTTP API (/write, /query, /debug/ctrl) as the observation interface"]
     ck.coq_audit([PID])
-    ok = ck.coq_build(["C08/Proofs.vo", "C08/DescMerge.vo", "C08/Rpn.vo", "C08/PipeProofs.vo", "C08/Corr.vo", "C08/Props.vo", "C08/Refuted.vo"])
+    ok = ck.coq_build(["C08/Proofs.vo", "C08/DescMerge.vo", "C08/Rpn.vo", "C08/Prune.vo", "C08/PipeProofs.vo", "C08/Corr.vo", "C08/Props.vo", "C08/Refuted.vo"])
     if ok:
         ck.coq_props(["C08/Props.v", "C08/Refuted.v"])
     server = ck.go_build_repo("./app/ts-server", "ts-server")
